@@ -1,5 +1,6 @@
 """C08 — the collector keeps state only for unfinished traces and live threads."""
 import seqcheck
+from props import c09
 
 
 def knobs(r, i):
@@ -7,7 +8,9 @@ def knobs(r, i):
 
 
 def run(v, tier, seed, replay):
-    seqcheck.run(v, tier, seed, replay, "C08", ["C08"], tree_oracles=["no_panic", "retained", "exactly_once"], wild_oracles=["no_panic"], knobs=knobs,
+    cases, impl, model = seqcheck.run(v, tier, seed, replay, "C08", ["C08"], tree_oracles=["no_panic", "retained", "exactly_once"], wild_oracles=["no_panic"], knobs=knobs,
                  n_quick=(600, 150), n_thorough=(60000, 10000),
                  nontrivial=lambda lines, tr: bool(tr.stats),
                  assumptions=["a start drained in a later cycle than its commit/drop leaves a permanent entry (open finding D4, C08 example); not reachable at the harness' granularity of whole cycles"])
+    if not replay and not v.violations:
+        c09.run_scenarios(v, {"start-parked-%d" % c: c09.sc_start_parked(c) for c in (0, 1)})
